@@ -135,7 +135,9 @@ func c03Docs(c *Case) []*xdoc.Doc {
 }
 
 func c03DeepDocs(c *Case) []*xdoc.Doc {
-	return c.docPool("deep", 3, func(g *xgen.G) *xdoc.Doc { return g.DeepTree() })
+	docs := c.docPool("deep", 3, func(g *xgen.G) *xdoc.Doc { return g.DeepTree() })
+	// siblings that share a local name but not a prefix (p:a next to a): they are not candidates of the step a
+	return append(append([]*xdoc.Doc(nil), docs...), c.docPool("prefixed", 3, func(g *xgen.G) *xdoc.Doc { return g.NSTree(false) })...)
 }
 
 // withoutPositional returns e with numeric/positional first predicates removed (to size the candidate set).
@@ -206,6 +208,8 @@ func c03Random(c *Case) {
 	var d *xdoc.Doc
 	if (c.Index/6)%8 == 5 {
 		d = dg.DeepTree()
+	} else if (c.Index/6)%8 == 6 {
+		d = dg.NSTree(false)
 	} else if dg.Chance(0.6) {
 		d = dg.WideTree(4, 8)
 	} else {
